@@ -574,6 +574,17 @@ func (e *Exec) bindResults(scope map[string]Val, res Val, resType types.Type, fn
 
 var contractErrors []string
 
+// contractErrInfo classifies each contract error by what else depends on the
+// clause that could not be evaluated: "pure" (an assertion or postcondition:
+// nothing), "ghost:<name>" (a ghost update: whatever reads that ghost), or
+// "basis" (an invariant, precondition, assumption, let, frame or lock entry:
+// potentially every other obligation of the function).
+type contractErrRec struct {
+	Func, Class, Msg string
+}
+
+var contractErrInfo []contractErrRec
+
 func (e *Exec) contractError(fc *FuncContract, c *Clause, err error) {
 	msg := fmt.Sprintf("contract error: %s line %d (%s): %v [while verifying %s]", fc.Name, c.Line, c.Text, err, e.fname)
 	for _, m := range contractErrors {
@@ -582,6 +593,14 @@ func (e *Exec) contractError(fc *FuncContract, c *Clause, err error) {
 		}
 	}
 	contractErrors = append(contractErrors, msg)
+	class := "basis"
+	switch {
+	case c.Kind == "assert" || c.Kind == "ensures":
+		class = "pure"
+	case c.Kind == "ghost" && c.Ghost != "":
+		class = "ghost:" + c.Ghost
+	}
+	contractErrInfo = append(contractErrInfo, contractErrRec{Func: e.fname, Class: class, Msg: msg})
 }
 
 func (e *Exec) callAnchor(fr *Frame, instr ssa.Instruction) string {
